@@ -46,6 +46,45 @@ const SUFFIX: &[&str] = &[
     "</script>\u{feff}\u{fffd}",
     "\u{8}\u{c}/",
     "{\"Values\":[1,],\"x\":NaN}",
+    // every escape-relevant character on its own: whether a string needs escaping is decided per character, so a
+    // class that only ever appears next to another one (U+001F next to U+0000) hides a wrong boundary (C02-m7)
+    "\"",
+    "\\",
+    " ",
+    "!",
+    "\u{0}",
+    "\u{1}",
+    "\u{2}",
+    "\u{3}",
+    "\u{4}",
+    "\u{5}",
+    "\u{6}",
+    "\u{7}",
+    "\u{8}",
+    "\u{9}",
+    "\u{a}",
+    "\u{b}",
+    "\u{c}",
+    "\u{d}",
+    "\u{e}",
+    "\u{f}",
+    "\u{10}",
+    "\u{11}",
+    "\u{12}",
+    "\u{13}",
+    "\u{14}",
+    "\u{15}",
+    "\u{16}",
+    "\u{17}",
+    "\u{18}",
+    "\u{19}",
+    "\u{1a}",
+    "\u{1b}",
+    "\u{1c}",
+    "\u{1d}",
+    "\u{1e}",
+    "\u{1f}",
+    "\u{7f}",
 ];
 
 const STD_UNITS: &[(Unit, &str)] = &[
